@@ -8,7 +8,7 @@ use arrow_data::{ArrayData, ArrayDataBuilder};
 use arrow_schema::{DataType, Field, Schema, UnionMode};
 use std::sync::Arc;
 use vcore::serde_json::json;
-use vcore::{Ctx, Level, Stats, catch, par_for};
+use vcore::{Ctx, Level, Stats, catch};
 use vmodel::build::{Layout, layouts_1, realise};
 use vmodel::extract::extract;
 use vmodel::validate::spec_validate;
@@ -519,7 +519,7 @@ pub fn run(ctx: &Ctx) -> ! {
         }
     }
     let entries = [Entry::TryNew, Entry::Builder, Entry::BuilderAlign, Entry::ValidateFull, Entry::Typed];
-    st.merge(par_for(ctx, "mutilations", cases.len() as u64, 8, |idx, st| {
+    st.merge(vcore::par_for_replayable(ctx, "mutilations", cases.len() as u64, 8, |idx, st| {
         let (ti, col, lay) = &cases[idx as usize];
         let dt = &grid[*ti];
         let Ok(a) = realise(dt, col, lay) else { return };
